@@ -111,7 +111,11 @@ namespace ST
         {
             m_chars = is_reffed() ? move.m_chars : m_data;
             traits_t::copy(m_data, move.m_data, local_length);
+
+            // Leave the source as a valid, empty buffer which owns nothing
+            move.m_chars = move.m_data;
             move.m_size = 0;
+            traits_t::assign(move.m_data, local_length, 0);
         }
 
         buffer(const char_T *data, size_t size)
@@ -190,9 +194,11 @@ namespace ST
         {
             std::swap(m_chars, move.m_chars);
             std::swap(m_size, move.m_size);
-            traits_t::copy(m_data, move.m_data, local_length);
+            std::swap(m_data, move.m_data);
             if (!is_reffed())
                 m_chars = m_data;
+            if (!move.is_reffed())
+                move.m_chars = move.m_data;
             return *this;
         }
 
